@@ -84,14 +84,15 @@ func (r *recorder) Sample(s string) {
 func (r *recorder) ParseErrors() uint64 { return r.counter.ParseErrors() }
 
 type snapshot struct {
-	counts  map[string]int64
-	matched uint64
-	samples int64
-	status  string
-	summary string
-	active  int
-	bfull   bool // the batch channel (cap --batch-buffer) was full when this render ran
-	rfull   bool // the 5-slot match channel was full when this render ran
+	counts        map[string]int64
+	matched       uint64
+	read, ignored uint64
+	samples       int64
+	status        string
+	summary       string
+	active        int
+	bfull         bool // the batch channel (cap --batch-buffer) was full when this render ran
+	rfull         bool // the 5-slot match channel was full when this render ran
 }
 
 func check(c Case) error {
@@ -126,7 +127,8 @@ func check(c Case) error {
 		// what the commands do in their render callback
 		s := snapshot{counts: map[string]int64{}}
 		s.samples = atomic.LoadInt64(&rec.samples)
-		s.matched = p.Extractor.MatchedLines() // read first: it may only grow afterwards
+		s.matched = p.Extractor.MatchedLines()                                  // read first: it may only grow afterwards
+		s.read, s.ignored = p.Extractor.ReadLines(), p.Extractor.IgnoredLines() // what the summary line shows
 		for _, it := range rec.counter.ItemsSortedBy(rec.counter.GroupCount(), sorter) {
 			s.counts[it.Name] = it.Item.Count()
 		}
@@ -159,7 +161,7 @@ func check(c Case) error {
 	if err != nil {
 		return fmt.Errorf("harness: reference: %v", err)
 	}
-	_, wm, _ := pipe.Counts(ref)
+	wr, wm, wi := pipe.Counts(ref)
 	want := map[string]int64{}
 	for _, l := range ref {
 		if l.Class == pipe.Matched {
@@ -176,6 +178,11 @@ func check(c Case) error {
 	}
 	if final.matched != wm {
 		return fmt.Errorf("final render shows MatchedLines=%d, true count %d", final.matched, wm)
+	}
+	// the summary of the final frame ("Matched: M / R (Ignored: I)") is the one left on screen: input that
+	// ends in unmatched or ignored lines still has to be counted in it
+	if final.read != wr || final.ignored != wi {
+		return fmt.Errorf("final render shows %d lines read and %d ignored, true counts %d and %d: the last render did not come after the last line was classified", final.read, final.ignored, wr, wi)
 	}
 	if got := p.Extractor.MatchedLines(); got != wm {
 		return fmt.Errorf("MatchedLines=%d after the run, true count %d", got, wm)
